@@ -35,6 +35,21 @@ macro "memo! " f:term:max : term => `(let t := memoTable $f; fun x => memoGet t 
 
 def showSet (m : Nat → Bool) : String := showNatList ((List.range U).filter m)
 
+/-- Long listings (the size cases) are printed as length + order-sensitive hash; short ones in full. -/
+def digestP : Nat := 2147483647
+
+def showOrDigest (l : List Nat) : String :=
+  if l.length ≤ 64 then showNatList l
+  else s!"#{l.length}:{l.foldl (fun h x => (h * 1000003 + x % digestP) % digestP) 7}"
+
+/-- A set within the printed universe is printed in full, any other as size + order-independent sums. -/
+def showOrSums (l : List Nat) : String :=
+  if l.all (· < U) then showSet (fun x => l.contains x)
+  else
+    let s1 := l.foldl (fun a x => (a + x % digestP) % digestP) 0
+    let s2 := l.foldl (fun a x => (a + (x % digestP) * (x % digestP)) % digestP) 0
+    s!"#{l.length}:{s1}:{s2}"
+
 def parseNats (s : String) : Option (List Nat) :=
   if s == "-" then some [] else (s.splitOn ",").mapM (·.toNat?)
 
